@@ -20,13 +20,14 @@ def _kind_tags(src, which):
         n_arms = len(_re.findall(r"=>\s*Ok\(", body))
     if not pairs or len(pairs) != n_arms:
         raise ValueError("RecordKind %s table not understood (%d pairs, %d arms)" % (which, len(pairs), n_arms))
-    return [(k, int(v)) for k, v in pairs]
+    # order of the match arms is irrelevant: the table is reported sorted by number
+    return sorted([(k, int(v)) for k, v in pairs], key=lambda kv: (kv[1], kv[0]))
 
 
 def _kind_names(src):
     import re as _re
     body = _re.search(r"pub enum RecordKind \{(.*?)\}", src, _re.S).group(1)
-    return [x.strip() for x in body.split(",") if x.strip()]
+    return sorted(x.strip() for x in body.split(",") if x.strip())   # declaration order is irrelevant
 
 
 const("kind_tags_ser", "ant-protocol/src/storage/header.rs", lambda src: _kind_tags(src, "ser"), ty="list (string * N)")
